@@ -3,10 +3,12 @@ package main
 import (
 	"encoding/json"
 	"fmt"
+	"io"
 	"os"
 	"path/filepath"
 	"sort"
 
+	"github.com/roddhjav/apparmor.d/pkg/aa"
 	"github.com/roddhjav/apparmor.d/pkg/logs"
 )
 
@@ -28,6 +30,27 @@ func debugMain(args []string) int {
 			j, _ := json.Marshal(m)
 			fmt.Println(string(j))
 		}
+	case "rt":
+		// dbg rt < rule text on stdin: parse, show the structs, print again
+		b, _ := io.ReadAll(os.Stdin)
+		func() {
+			defer func() {
+				if p := recover(); p != nil {
+					fmt.Println("PANIC", p)
+				}
+			}()
+			paras, _, err := aa.ParseRules(string(b))
+			if err != nil {
+				fmt.Println("ERR", err)
+				return
+			}
+			for _, rs := range paras {
+				for _, r := range rs {
+					j, _ := json.Marshal(r)
+					fmt.Printf("%T %s\n   => %s\n", r, j, r.String())
+				}
+			}
+		}()
 	case "scanstats":
 		root := args[1]
 		cnt := map[string]int{}
